@@ -523,9 +523,9 @@ impl World for StreamWorld {
     }
     fn runs(&self, ask: Ask) -> u64 {
         if ask.thorough {
-            5_000_000
+            20_000_000
         } else {
-            80_000
+            400_000
         }
     }
     fn components(&self) -> (Vec<&'static str>, Vec<&'static str>) {
